@@ -14,14 +14,14 @@ BUILT = {
          "Every successful allocation in generated histories is checked for the stated capacity, offset alignment and address alignment, including recycled segments, odd cursor residues and zero-size requests on full arenas (5/6 Engine A histories); the same capacity / offset law is evaluated at every allocation return of 2-4 threads sharing one sync::Arena under a generated schedule (1/6 Engine B programs), so that compare-exchange retries after another thread moved the cursor are covered.",
          "same as C01", "5/C03"),
  "C04": ("engine-a", "exploration", "boundary-value stateful property testing under checked and unchecked builds, supervised worker processes",
-         "7/8 of the cases: boundary-dense huge sizes on every reachable state, same seeds under overflow-checked and unchecked builds; 1/8: Engine B programs on a shared arena - exhausted (a returning, in particular a failing, call must not leave a segment it marked behind) or with fresh space left and requests that cannot fit (u32::MAX-k, u32::MAX-allocated+d, capacity+d, remaining+d) racing small ones (every range returned meanwhile must lie in the data area and be disjoint from every live range); panics are caught, signals are caught by the supervisor and minimised by delta debugging in child processes. The thorough tier adds a coverage-guided stage: the same interpreter as a libFuzzer target (cargo +nightly fuzz, AddressSanitizer, 16 jobs), so that any access outside the arena's heap block is a crash.",
+         "7/8 of the cases: boundary-dense huge sizes on every reachable state (histories include truncate and map_copy sessions; where capacity() reports more than a truncate left, the request that fits the report but not the memory is made and must stay inside the memory), same seeds under overflow-checked and unchecked builds; 1/8: Engine B programs on a shared arena - exhausted (a returning, in particular a failing, call must not leave a segment it marked behind) or with fresh space left and requests that cannot fit (u32::MAX-k, u32::MAX-allocated+d, capacity+d, remaining+d) racing small ones (every range returned meanwhile must lie in the data area and be disjoint from every live range); panics are caught, signals are caught by the supervisor and minimised by delta debugging in child processes. The thorough tier adds a coverage-guided stage: the same interpreter as a libFuzzer target (cargo +nightly fuzz, AddressSanitizer, 16 jobs), so that any access outside the arena's heap block is a crash.",
          "out-of-arena accesses are seen through consequences (signal, corrupted neighbour) in the quick tier", "5/C04"),
  "C05": ("engine-a", "exploration", "stateful property testing with close/reopen steps, state-before-close = state-after-open relation",
          "Histories (incl. clear / rewind / discard_freelist) on real files cut by drop+reopen in the four open modes and their *_with_path_builder forms with same/larger/absent capacity, read-only reopens with generated leftover write flags; state tuple, free list and all handed-out bytes compared across each reopen; shadow map carried over so later allocations are checked against pre-close live ranges.",
          "tmpfs files; durability (sync_all) not observable in-process", "5/C05"),
- "C06": ("engine-a", "fault_enumeration", "crash-point enumeration: memory() snapshot before every atomic access of every operation (verif hook), each reopened with map_mut and driven by a generated post-crash history",
-         "One generated history (allocation / release traffic, discard_freelist, clear, rewind, increase_discarded) is executed once while every atomic step is recorded as a crash point (copy of memory() = what a MAP_SHARED file holds at that instant). quick evaluates <= 32 points per history (all steps of one free-list operation + a sample), thorough all of them: reopen, cursor range, pre-crash live bytes, then a generated post-crash history with the pre-crash live ranges in the shadow map and a no-progress budget for termination.",
-         "crash = page cache at that instant (the statement's model); Vec+unify memory() stands for the file bytes (equivalence checked by C16 and by the 10% file/anon share)", "5/C06"),
+ "C06": ("engine-a", "fault_enumeration", "crash-point enumeration: memory() snapshot before every atomic access of every operation (verif hook), the file itself at every operation boundary of a file-backed arena, each reopened with map_mut and driven by a generated post-crash history",
+         "One generated history (allocation / release traffic, discard_freelist, clear, rewind, increase_discarded, truncate on unsync arenas) is executed once while every atomic step is recorded as a crash point (copy of memory() = what a MAP_SHARED file holds at that instant). quick evaluates <= 32 points per history (all steps of one free-list operation + a sample), thorough all of them: reopen, cursor range, pre-crash live bytes, then a generated post-crash history with the pre-crash live ranges in the shadow map and a no-progress budget for termination.",
+         "crash = page cache at that instant (the statement's model); Vec+unify memory() stands for the file bytes (equivalence checked by C16; for the file-backed share the boundary snapshots are read from the file through the file system)", "5/C06"),
  "C07": ("engine-b", "exploration", "controlled-scheduler concurrency testing with a no-progress (all threads stalled) detector as bounded safety surrogate for liveness",
          "Same engine as C02 with threads that keep allocations forever or finish early; violation iff every unfinished thread has re-examined an unchanging state for more than L scheduling points (then no call can ever return). Starvation under an infinite fair schedule is out of reach and counted as inconclusive when a per-operation budget trips.",
          "liveness is decided through a bounded safety surrogate; fair round-robin fallback schedule", "4.3, 5/C07"),
@@ -38,28 +38,28 @@ BUILT = {
          "The same generated config and single-threaded history (whole trait surface incl. rewind/clear/set_minimum_segment_size/increase_discarded/discard_freelist) is run on both flavours; result kinds, ranges, counters and free-list snapshots must agree after every step; one-sided panics or oracle failures are violations.",
          "memory() bytes are not compared (not in the statement; see DESIGN.md section 9)", "5/C11"),
  "C12": ("engine-b", "exploration", "controlled-scheduler concurrency testing with a FastTrack-style vector-clock race detector fed by the orderings the code passes to its atomics",
-         "Programs with cross-thread hand-over of recycled ranges, owned buffers sent between threads, arena clones dropped on other threads, and a program family that nests removal windows on neighbouring nodes of one list (up to 5 threads, every marker pre-empted after its mark); happens-before is computed from the actual Ordering arguments reported by the hook; any unordered pair of accesses to a common byte with a non-atomic side is a violation.",
+         "Programs with cross-thread hand-over of recycled ranges, owned buffers sent between threads, arena clones dropped on other threads, and a program family that nests removal windows on neighbouring nodes of one list (up to 5 threads, every marker pre-empted after its mark, either the latest marker only or all of them at once); happens-before is computed from the actual Ordering arguments reported by the hook; any unordered pair of accesses to a common byte with a non-atomic side is a violation.",
          "judged on sequentially consistent interleavings; SeqCst treated as AcqRel", "4.4, 5/C12"),
  "C13": ("engine-a", "exploration", "stateful property testing (release-exactly-once predicates, drop counters, refs() model, unmount event counter) + controlled-scheduler clone/drop interleavings with a reference-count oracle",
          "Clone/alloc/to-owned/detach/drop in any order incl. original first, with a generated teardown order; per-drop state delta must equal exactly one dealloc of the buffer extent; values of drop-counting types (sized, and zero-sized guard types) dropped exactly once by the time their non-detached handle is gone; Unmount event exactly once at the last holder; when the last holder of a file-backed arena is an owned handle its release is read back from the file. One case in six is a multi-threaded Engine B program (clones, owned buffers sent between threads) in which every access to the reference count must observe the model's number of live arena values and the memory is released once, by the last holder, under the scheduler.",
          "Unmount event at the top of Memory::unmount stands for the release of the backing store", "5/C13"),
  "C14": ("buffer-engine", "exploration", "property testing of every buffer writer/reader against a reference encoder with whole-arena before/after snapshots and canary neighbours; round-trip relations",
-         "One generated buffer (fresh / recycled / aligned at odd cursor, borrowed / owned, capacity 0..96, any fill level) between canary neighbours; 1..5 generated calls over 12 integer types x 3 byte orders, LEB128, slices, set_len, align_to/put/put_aligned over the type table; out-of-buffer bytes compared byte for byte after every call; checked and unchecked builds.",
+         "One generated buffer (fresh / recycled / aligned at odd cursor, borrowed / owned, capacity 0..96, any fill level) between canary neighbours; 1..5 generated calls over 12 integer types x 3 byte orders, LEB128, slices (put_slice / get_slice / get_slice_mut), the *_unchecked twins inside their contract, set_len, align_to/put/put_aligned over the type table plus two over-aligned types on arenas with maximum alignment 16 / 32 / 64, a third of the unsync cases on an arena that was resized first; out-of-buffer bytes compared byte for byte after every call; checked and unchecked builds.",
          "put::<T> is only called at positions aligned for T (its documented precondition; ZSTs are kept aligned too)", "5/C14"),
  "C15": ("reader-engine", "exploration", "property testing of arena-level readers against a reference decode of memory(), offsets dense around allocated() and at usize extremes, checked and unchecked builds",
-         "Arena filled with continuation-heavy content and rewound so that non-zero bytes lie above allocated(); every reader at generated offsets (one case in 40: the arena lives in a file and is reopened with a capacity option below the stored cursor - refused, or consistent); fixed-width results compared with a reference decode iff the value lies below the mark (u128 arithmetic), varint results compared with the decoder applied to exactly the bytes below the mark.",
+         "Arena filled with continuation-heavy content and rewound so that non-zero bytes lie above allocated(); every reader at generated offsets, on a quarter of the unsync cases after a truncate to a generated size (one case in 40: the arena lives in a file and is reopened with a capacity option below the stored cursor - refused, or consistent); fixed-width results compared with a reference decode iff the value lies below the mark (u128 arithmetic), varint results compared with the decoder applied to exactly the bytes below the mark.",
          "const_varint (the crate rarena delegates to) is the varint reference for the slice; an independent LEB128 decoder cross-checks unsigned values", "5/C15"),
  "C16": ("engine-a", "exploration", "property testing of constructors against Options::data_offset*, accessor table, and 3-way differential (Vec/anon/file, unified layout) with memory() hashes per step",
          "Constructor cases around the prefix size for reserved 0..=4096 (and u32::MAX-k, which must be refused cleanly) on all backends and both flavours, accessor table and first-allocation offset; the accessor table, data_offset() and the remaining law are re-checked after every step for every live arena value (clones, reopened files); then one history in lock-step on Vec, anonymous-mmap and file arenas with byte-identical memory() after every step - every byte, header padding included; a sixteenth of the cases runs under an unoptimised build of the crate, where by-value copies carry what the stack held.",
          "Options::data_offset / data_offset_unify are the reference, as the statement says", "5/C16"),
  "C17": ("engine-a", "exploration", "stateful property testing with an i128 reference clamp for rewind; metamorphic relation cleared arena == fresh arena under the same continuation; checked and unchecked builds",
-         "Boundary-dense ArenaPosition values in every reachable state against an i128 reference (read-only reopened arenas included: there rewind must change nothing and must not crash); clear followed by a generated continuation also run on a fresh arena, observation streams compared.",
+         "Boundary-dense ArenaPosition values in every reachable state against an i128 reference, in histories that include truncate on unsync arenas (read-only reopened arenas included: there rewind must change nothing and must not crash); clear followed by a generated continuation also run on a fresh arena, observation streams compared.",
          "rewind/clear contracts respected by the harness (handles above the new cursor forgotten, free list reaching above it discarded first)", "5/C17"),
  "C18": ("engine-a", "exploration", "stateful property testing on unsync::Arena with truncate steps, before/after state relation",
          "truncate(n) for n around allocated/capacity and up to 4x capacity on the three backends after histories with free list and detached live data, incl. file arenas reopened writable or copy-on-write, and about 30 cases per quick run on arenas of 1 GiB or more, where 4x capacity passes u32::MAX (there the call must fail and change nothing); capacity law, unchanged state and bytes, later fitting allocations must succeed.",
          "truncate only while refs()==1 and no handle object exists", "5/C18"),
  "C19": ("checksum-engine", "exploration", "property testing: chunked checksum == one-shot checksum by the same builder, with a position-sensitive second builder",
-         "Allocated lengths hit exactly at k*page-2..k*page+2 for k<=3 plus random lengths, reserved 0..=64, three backends; checksum(b) compared with b.checksum_one(allocated_memory()[reserved_bytes()..]) - both sides as the arena reports them - for Crc32 and a position-weighted sum that detects dropped/repeated/reordered chunks.",
+         "Allocated lengths hit exactly at k*page-2..k*page+2 for k<=3 plus random lengths, reserved 0..=64, three backends, all three free-list kinds with a released block in the middle of the fill (non-empty list inside the checksummed header), file cases optionally in a later read-only session; checksum(b) compared with b.checksum_one(allocated_memory()[reserved_bytes()..]) - both sides as the arena reports them - for Crc32 and a position-weighted sum that detects dropped/repeated/reordered chunks.",
          "page size is the host's (4096)", "5/C19"),
  "C20": ("engine-a", "exploration", "stateful property testing, per-step discarded() delta predicates against free-list snapshots",
          "Per-step accounting predicates for discarded(): monotone, increase_discarded over the whole u32 range (exact while the true sum fits in a u32, monotone beyond), None-release, too-small release never reused, discard_freelist sum/empty list.",
